@@ -248,7 +248,10 @@ func runC17(c *vh.Case) {
 			for i := range b {
 				b[i] = byte(r.Intn(256))
 			}
-			return base64.URLEncoding.EncodeToString(b), true
+			// Arbitrary bytes are malformed unless they happen to be a gob stream that decodes into the token's
+			// shape (about one in several thousand does: a lone type id, rest ignored); those are undecided.
+			var ref struct{ LastUID string }
+			return base64.URLEncoding.EncodeToString(b), gob.NewDecoder(bytes.NewReader(b)).Decode(&ref) != nil
 		case x == 5:
 			return "\n", true
 		case x == 6 && len(issued) > 0:
